@@ -28,7 +28,10 @@ slice_const(Arr& a, AV& out, T... acc) { store(out, static_cast<const Arr&>(a)(a
 template <class Arr, typename... T>
 static typename std::enable_if<!is_view<decltype(std::declval<const Arr&>()(std::declval<T>()...))>::value>::type
 slice_const(Arr& a, AV& out, T... acc) { store(out, a(acc...)); }   // all indices scalar: the const overload returns a value, not an element
-struct Arg { char kind; int a, b, c; };
+struct Arg { char kind; int a, b, c; std::vector<int> iv; };
+static bool g_has_iv = false;   // the current slice has an integer-vector argument: the result is an IndexedArray (copied out, then written through)
+template <class E> static void store(AV& o, const Expression<double, E>& e) { Array<E::rank, double, false> tmp; tmp = e.cast(); store(o, tmp); }
+static intVector make_iv(const Arg& x) { intVector I((int)x.iv.size()); for (size_t k = 0; k < x.iv.size(); ++k) I((int)k) = x.iv[k]; return I; }
 typedef decltype(adept::end + 0) EndExpr;
 typedef decltype(stride(0, 0, 1)) RangeI;
 typedef decltype(stride(adept::end + 0, adept::end + 0, 1)) RangeE;
@@ -40,17 +43,23 @@ template <int R, int K, bool Full, typename... T> struct Slicer {
     case 's': Slicer<R, K + 1, Full, T..., int>::go(a, g, out, acc..., x.a); break;
     case 'r': Slicer<R, K + 1, Full, T..., RangeI>::go(a, g, out, acc..., stride(x.a, x.b, x.c)); break;
     case 'a': Slicer<R, K + 1, Full, T..., AllT>::go(a, g, out, acc..., __); break;
+    case 'v': if (Full) Slicer<R, K + 1, Full, T..., typename std::conditional<Full, intVector, int>::type>::go(a, g, out, acc..., selv<Full>(x)); break;
     case 'e': if (Full) Slicer<R, K + 1, Full, T..., typename std::conditional<Full, EndExpr, int>::type>::go(a, g, out, acc..., sel<Full>(x.a)); break;
     case 'R': if (Full) Slicer<R, K + 1, Full, T..., typename std::conditional<Full, RangeE, RangeI>::type>::go(a, g, out, acc..., selr<Full>(x)); break;
     }
   }
+  template <bool F> static typename std::enable_if<F, intVector>::type selv(const Arg& x) { return make_iv(x); }
+  template <bool F> static typename std::enable_if<!F, int>::type selv(const Arg& x) { return 0; }
   template <bool F> static typename std::enable_if<F, EndExpr>::type sel(int k) { return adept::end + k; }
   template <bool F> static typename std::enable_if<!F, int>::type sel(int k) { return k; }
   template <bool F> static typename std::enable_if<F, RangeE>::type selr(const Arg& x) { return stride(adept::end + x.a, adept::end + x.b, x.c); }
   template <bool F> static typename std::enable_if<!F, RangeI>::type selr(const Arg& x) { return stride(x.a, x.b, x.c); }
 };
 template <int R, bool Full, typename... T> struct Slicer<R, R, Full, T...> {
-  template <class Arr> static void go(Arr& a, const std::vector<Arg>&, AV& out, T... acc) { if (g_const) slice_const(a, out, acc...); else store(out, a(acc...)); }
+  template <class Arr> static void go(Arr& a, const std::vector<Arg>&, AV& out, T... acc) {
+    if (g_has_iv) { store(out, a(acc...)); a(acc...) = 7777.0; }
+    else if (g_const) slice_const(a, out, acc...); else store(out, a(acc...));
+  }
 };
 static void do_slice(AV& v, const std::vector<Arg>& g, AV& out) {
   switch (v.rank) {
@@ -105,7 +114,9 @@ int main(int argc, char** argv) {
             std::string k; is >> k; g[i].kind = k[0]; g[i].a = g[i].b = 0; g[i].c = 1;
             if (k[0] == 's' || k[0] == 'e') is >> g[i].a;
             if (k[0] == 'r' || k[0] == 'R') is >> g[i].a >> g[i].b >> g[i].c;
+            if (k[0] == 'v') { int m; is >> m; g[i].iv.resize(m); for (int q = 0; q < m; ++q) is >> g[i].iv[q]; }
           }
+          g_has_iv = false; for (int i = 0; i < n; ++i) if (g[i].kind == 'v') g_has_iv = true;
           do_slice(cur, g, nxt);
         } else if (tok == "I" || tok == "J") {
           int k; is >> k;
